@@ -220,11 +220,18 @@ fn host_matches_authority(host: &[u8], authority: &[u8]) -> bool {
     compare_no_case(host_stripped, auth_stripped)
 }
 
-/// Like `has_invalid_value_byte` but also rejects HTAB (0x09), which is
-/// allowed in regular header values (RFC 9110 §5.5) but not in pseudo-header
-/// values that end up in the H1 request-line (RFC 9112 §3).
+/// Like `has_invalid_value_byte` but also rejects HTAB (0x09), SP (0x20) and
+/// obs-text (0x80..=0xFF), which are allowed in regular header values
+/// (RFC 9110 §5.5) but not in pseudo-header values that end up in the H1
+/// request-line (RFC 9112 §3): method, request-target and authority are
+/// visible ASCII without whitespace. A space in `:path` would add a token to
+/// the request line (`GET /a b HTTP/1.1`) that Sōzu and the backend can read
+/// differently; raw bytes above 0x7F are refused by the HTTP/1.1 frontend's
+/// parser too (a URI carries them percent-encoded).
 fn has_invalid_pseudo_value_byte(value: &[u8]) -> bool {
-    value.iter().any(|&b| matches!(b, 0x00..=0x1F | 0x7F))
+    value
+        .iter()
+        .any(|&b| matches!(b, 0x00..=0x20 | 0x7F..=0xFF))
 }
 
 /// Returns true if the value contains any byte forbidden in HTTP field values
@@ -559,8 +566,17 @@ fn write_regular_header(
             return Err(RejectReason::DuplicateCl);
         }
         if let Some(length) = from_utf8(value).ok().and_then(|v| v.parse::<usize>().ok()) {
+            let repeated = kawa.body_size == BodySize::Length(length);
             if !set_content_length(&mut kawa.body_size, length) {
                 return Err(RejectReason::ClTeConflict);
+            }
+            if repeated {
+                // RFC 9110 §8.6 / RFC 9112 §6.3: a Content-Length repeated with
+                // the same value is valid, but must be forwarded as ONE field
+                // line -- a backend may refuse a message with two. Drop the
+                // repetition (and give its bytes back to the storage).
+                kawa.storage.end = end_before_val;
+                return Ok(());
             }
         } else {
             return Err(RejectReason::DuplicateCl);
